@@ -305,6 +305,14 @@ impl Default for TypeResolver {
     }
 }
 
+/// Verification hooks: re-export private helpers to the out-of-tree native replay harness
+#[cfg(feature = "verif-hooks")]
+pub mod verif_hooks {
+    pub fn split_top_level_commas(list: &str) -> Vec<String> {
+        super::split_top_level_commas(list)
+    }
+}
+
 #[cfg(test)]
 mod tests {
     use super::*;
